@@ -21,6 +21,7 @@ var monitors = map[string]func(*vk.Ctx){
 	"C08":   runC08,
 	"C09":   runC09,
 	"C10":   runC10,
+	"C11":   runC11,
 	"C18":   runC18,
 }
 
